@@ -51,6 +51,10 @@ func cliSide(r *mon.Run) {
 				sts = append(sts, refage.Stanza{Type: "long-arg", Args: []string{strings.Repeat("A", 3000)}})
 			case "B1":
 				sts = append(sts, refage.Stanza{Type: "one-byte", Args: []string{"x"}, Body: []byte{0x42}})
+			default:
+				if strings.HasPrefix(k, "T:") { // a companion with this type name
+					sts = append(sts, refage.Stanza{Type: k[2:], Args: []string{"a"}, Body: make([]byte, 20)})
+				}
 			}
 		}
 		return refage.BuildFile(fk, sts, mon.DetBytes("c10cli-nonce-"+tag, 16), []byte("cli plaintext"))
@@ -73,6 +77,10 @@ func cliSide(r *mon.Run) {
 		if !strings.Contains(strings.Join(kinds, ","), "B1") {
 			emptyCases++ // every neighbour of S has an empty body
 		}
+	}
+	// companion type names: the tool's own lazy identity must not look past them
+	for _, kinds := range [][]string{{"T:x-grease", "S"}, {"S", "T:X25519-grease"}, {"T:scrypt-grease", "S", "T:grease"}, {"T:padding", "S"}, {"T:Scrypt", "S"}, {"S", "T:age-grease"}} {
+		cases = append(cases, cc{name: "multi[" + strings.Join(kinds, ",") + "]", file: build("t"+strings.Join(kinds, ""), kinds, "10", 10)})
 	}
 	if emptyCases < 7 {
 		r.Inconclusive("vacuous: CLI stage holds only %d empty-body-neighbour cases", emptyCases)
